@@ -200,6 +200,9 @@ SPECIAL = [
     (None, "len({**d, 'z': 1}) > 10", {"d": {"a": 1}}),
     (None, "[x for x in xs if x > 0] == [99]", {"xs": [1, -1, 2]}),
     (None, "[x + y for x in xs] == [99]", {"xs": [1, 2]}),
+    (None, "[xs[e] + o.a for e in [0, 1]] == [99]", {"xs": [1, 2]}),
+    (None, "[o.b[e] * cl + GL + len(xs) for e in [0, 1]] == []", {"ob": [3, 4], "xs": [1]}),
+    (None, "[[xs, o.b][e][0] + abs(y) for e in [0, 1] if xs[e] > cl - 100] == [1]", {"xs": [1, 2], "ob": [5]}),
     (None, "all(x > 0 for x in xs) and y > 100", {"xs": [1, 2]}),
     (None, "all(e > 0 for e in xs) is True", {"xs": [1, -2]}),
     (None, "(all(e > 0 for e in xs) == True)", {"xs": [1, -2]}),
